@@ -44,6 +44,8 @@ func devMain(args []string) {
 	timeout := fs.Int("timeout", 20000, "per-obligation timeout (ms)")
 	dump := fs.String("dump", "", "obligation name substring whose query is printed")
 	verbose := fs.Bool("v", false, "print proved obligations too")
+	doReplay := fs.Bool("replay", false, "replay refuted obligations on the real code")
+	lite := fs.Bool("lite", false, "with -dump: print the instantiated quantifier-free query")
 	fs.Parse(args)
 	t0 := time.Now()
 	w, err := LoadWorld(fs.Args(), nil)
@@ -74,9 +76,23 @@ func devMain(args []string) {
 			}
 			if o.Result == "refuted" {
 				fmt.Println("     model:", o.Model)
+				if *doReplay {
+					rr := tryReplay(w, violation{obl: o, fn: r, reason: "refuted"})
+					if rr != nil {
+						fmt.Println("     replay:", rr.Outcome, rr.Why)
+						if *verbose || rr.Outcome != "confirmed" {
+							fmt.Println(rr.TestSrc)
+						}
+						fmt.Println(rr.Output)
+					}
+				}
 			}
 			if *dump != "" && strings.Contains(o.Name, *dump) {
-				fmt.Println(o.Query)
+				if *lite {
+					fmt.Println(r.Ctx.QueryOpt(o.Hyps, o.Goal, true, QLite))
+				} else {
+					fmt.Println(o.Query)
+				}
 				fmt.Println(o.Raw)
 			}
 		}
